@@ -27,7 +27,7 @@ build = re.sub(r'-o\s+\S+', '', build) + ' -o %s/demo_bin' % out
 if pre:
     build = '; '.join(pre) + '; ' + build
 res['demo_build'] = build
-rc, o = sh('cmake --build _build -j8 2>&1 | tail -1; ctest --test-dir _build -j8 --timeout 900 2>&1 | grep -v memory_test | grep -E "tests passed|Failed"', wt)
+rc, o = sh('cmake --build _build -j8 2>&1 | tail -1; ctest --test-dir _build -j8 --timeout 900 -E memory_test 2>&1 | grep -E "tests passed|Failed"', wt)
 res['suite_with_change'] = o.strip().splitlines()[-3:]
 def demo():
     rc, o = sh(build, out)
